@@ -15,7 +15,7 @@ PROPS["C18"] = dict(
     level="proof",
     units=[U("contracts.batch_processing", f"{BP}.__init__"), U("contracts.batch_processing", f"{BP}.prepare_batches"),
            U("contracts.batch_processing", f"{BP}.unbatch_results"), U("contracts.batch_processing", f"{BP}.batch_shape")],
-    bounded=[dict(name="c18_runtime", script="harness_c18.py")],
+    bounded=[dict(name="c18_runtime", script="harness_c18.py"), dict(name="library_model_conformance", script="xcheck_models.py", args=["--prop", "C18"], wall_s=200)],
     replayers=[("*BatchProcessor*", "replay_c18.py")],
     trusted_base=["library models: jnp.zeros, jnp.vstack, reshape (row-major), slicing, len(jax.devices()) as an arbitrary integer >= 1"],
     assumptions=[ARITH, ENGINE, "row-major reshape is a bijection between flat and multi-indices (Lean: Mdpax.Engine ravel*_inj/surj)"],
@@ -24,7 +24,7 @@ PROPS["C18"] = dict(
 PROPS["C19"] = dict(
     level="proof",
     units=[U("contracts.spaces", "mdpax.utils.spaces.create_range_space", timeout_ms=30000)],
-    bounded=[dict(name="c19_runtime", script="harness_c19.py")],
+    bounded=[dict(name="c19_runtime", script="harness_c19.py"), dict(name="library_model_conformance", script="xcheck_models.py", args=["--prop", "C19"], wall_s=200)],
     replayers=[("*create_range_space*", "replay_c19.py")],
     trusted_base=["library models: itertools.product (lexicographic, last factor fastest), np.arange, jnp.ravel_multi_index(mode='clip') = sum_k clip(v_k,0,dim_k-1)*stride_k"],
     assumptions=[ARITH, ENGINE, "dimension counts 1..4 are proved per instance (bounds symbolic and unbounded); higher dimension counts are not covered"],
@@ -41,6 +41,7 @@ C02_UNITS = [U(V1, f"{VI}.{m}") for m in ["_get_value_next_state", "_calculate_u
 PROPS["C02"] = dict(
     bounded=[dict(name="c02_runtime", script="harness_solvers.py", args=["--prop", "c02"], wall_s=300),
              dict(name="interpreter_cross_check", script="xcheck.py", args=["--prop", "C02"], wall_s=200),
+             dict(name="library_model_conformance", script="xcheck_models.py", args=["--prop", "C02"], wall_s=200),
              dict(name="c03_multidevice", script="harness_devices.py", wall_s=600)],          # "every state": also when the sweep is spread over several devices and batches
     level="proof", units=C02_UNITS + PROPS["C18"]["units"][2:3],
     lean=["bell_discop", "bellpol_discop", "contraction", "span_contraction", "greedy_eq", "bellpol_le_bell"],
